@@ -11,6 +11,7 @@ import (
 	"github.com/tink-crypto/tink-go/v2/daead"
 	"github.com/tink-crypto/tink-go/v2/hybrid"
 	"github.com/tink-crypto/tink-go/v2/keyderivation"
+	"github.com/tink-crypto/tink-go/v2/keyset"
 	"github.com/tink-crypto/tink-go/v2/mac"
 	"github.com/tink-crypto/tink-go/v2/prf"
 	"github.com/tink-crypto/tink-go/v2/signature"
@@ -150,6 +151,164 @@ func TestPrimitiveBuffersAllTypes(t *testing.T) {
 			}
 			p.verify("DeriveKeyset")
 		}
+		// ---- the caller reuses its buffers: a second call on the SAME primitive object, with the same
+		// slices now holding other bytes, must give what a primitive built afresh gives for those bytes
+		// (nothing of an earlier argument may be retained: added after seeded change C17d, a memo keyed
+		// by the caller's salt slice), and an argument scribbled over after the call that received it
+		// must not change what that call's result does later.
+		xb, yb := p.in("x reused", x), p.in("y reused", y)
+		reuse := func(stage string) (x2, y2 []byte) {
+			p.verify(stage)
+			p.scribble()
+			return bytes.Clone(xb), bytes.Clone(yb)
+		}
+		stale := func(op string, err error) {
+			rt.Fatalf("%s: %s: after the caller overwrote its argument buffers in place and called again, the result is not the one for the new contents (an earlier argument was retained): %v", info.Desc, op, err)
+		}
+		h2 := tk.Must(tk.HandleFromKey(info.Key))
+		switch c {
+		case keys.AEAD:
+			a, fresh := tk.Must(aead.New(h)), tk.Must(aead.New(h2))
+			if _, err := a.Encrypt(xb, yb); err != nil {
+				rt.Fatalf("%s: Encrypt: %v", info.Desc, err)
+			}
+			x2, y2 := reuse("Encrypt")
+			ct, err := a.Encrypt(xb, yb)
+			if err != nil {
+				rt.Fatalf("%s: Encrypt: %v", info.Desc, err)
+			}
+			if got, err := fresh.Decrypt(ct, y2); err != nil || !bytes.Equal(got, x2) {
+				stale("Encrypt", err)
+			}
+		case keys.DAEAD:
+			d, fresh := tk.Must(daead.New(h)), tk.Must(daead.New(h2))
+			if _, err := d.EncryptDeterministically(xb, yb); err != nil {
+				rt.Fatalf("%s: Encrypt: %v", info.Desc, err)
+			}
+			x2, y2 := reuse("EncryptDeterministically")
+			ct, err := d.EncryptDeterministically(xb, yb)
+			want, err2 := fresh.EncryptDeterministically(x2, y2)
+			if err != nil || err2 != nil || !bytes.Equal(ct, want) {
+				stale("EncryptDeterministically", err)
+			}
+		case keys.MAC:
+			m, fresh := tk.Must(mac.New(h)), tk.Must(mac.New(h2))
+			if _, err := m.ComputeMAC(xb); err != nil {
+				rt.Fatalf("%s: ComputeMAC: %v", info.Desc, err)
+			}
+			x2, _ := reuse("ComputeMAC")
+			tag, err := m.ComputeMAC(xb)
+			want, err2 := fresh.ComputeMAC(x2)
+			if err != nil || err2 != nil || !bytes.Equal(tag, want) {
+				stale("ComputeMAC", err)
+			}
+		case keys.PRF:
+			s, fresh := tk.Must(prf.NewPRFSet(h)), tk.Must(prf.NewPRFSet(h2))
+			if _, err := s.ComputePrimaryPRF(xb, 16); err != nil {
+				rt.Fatalf("%s: ComputePrimaryPRF: %v", info.Desc, err)
+			}
+			x2, _ := reuse("ComputePrimaryPRF")
+			out, err := s.ComputePrimaryPRF(xb, 16)
+			want, err2 := fresh.ComputePrimaryPRF(x2, 16)
+			if err != nil || err2 != nil || !bytes.Equal(out, want) {
+				stale("ComputePrimaryPRF", err)
+			}
+		case keys.Signature:
+			s := tk.Must(signature.NewSigner(h))
+			fresh := tk.Must(signature.NewVerifier(tk.Must(h2.Public())))
+			if _, err := s.Sign(xb); err != nil {
+				rt.Fatalf("%s: Sign: %v", info.Desc, err)
+			}
+			x2, _ := reuse("Sign")
+			sig, err := s.Sign(xb)
+			if err != nil {
+				rt.Fatalf("%s: Sign: %v", info.Desc, err)
+			}
+			if err := fresh.Verify(sig, x2); err != nil {
+				stale("Sign", err)
+			}
+		case keys.Hybrid:
+			e := tk.Must(hybrid.NewHybridEncrypt(tk.Must(h.Public())))
+			fresh := tk.Must(hybrid.NewHybridDecrypt(h2))
+			if _, err := e.Encrypt(xb, yb); err != nil {
+				rt.Fatalf("%s: Encrypt: %v", info.Desc, err)
+			}
+			x2, y2 := reuse("Encrypt")
+			ct, err := e.Encrypt(xb, yb)
+			if err != nil {
+				rt.Fatalf("%s: Encrypt: %v", info.Desc, err)
+			}
+			if got, err := fresh.Decrypt(ct, y2); err != nil || !bytes.Equal(got, x2) {
+				stale("Encrypt", err)
+			}
+		case keys.Streaming:
+			// the associated data is an argument of NewEncryptingWriter / NewDecryptingReader: what the
+			// returned writer / reader does later belongs to that call
+			sa, fresh := tk.Must(streamingaead.New(h)), tk.Must(streamingaead.New(h2))
+			y1 := bytes.Clone(yb)
+			var buf bytes.Buffer
+			w, err := sa.NewEncryptingWriter(&buf, yb)
+			if err != nil {
+				rt.Fatalf("%s: %v", info.Desc, err)
+			}
+			x2, _ := reuse("NewEncryptingWriter") // yb now holds other bytes; the stream was opened with y1
+			if _, err := w.Write(xb); err != nil {
+				rt.Fatalf("%s: Write: %v", info.Desc, err)
+			}
+			if err := w.Close(); err != nil {
+				rt.Fatalf("%s: Close: %v", info.Desc, err)
+			}
+			fr, err := fresh.NewDecryptingReader(bytes.NewReader(buf.Bytes()), y1)
+			if err != nil {
+				rt.Fatalf("%s: %v", info.Desc, err)
+			}
+			var out bytes.Buffer
+			if _, err := out.ReadFrom(fr); err != nil || !bytes.Equal(out.Bytes(), x2) {
+				rt.Fatalf("%s: a stream opened with associated data %x, which the caller overwrote before the first Write, does not decrypt under that associated data: %v", info.Desc, y1, err)
+			}
+			// the caller puts the right associated data back into its buffer, opens a reader, and
+			// overwrites the buffer again before the first Read
+			copy(yb, y1)
+			for _, a := range p.arenas {
+				a.orig = append([]byte{}, a.buf...)
+			}
+			r, err := sa.NewDecryptingReader(bytes.NewReader(buf.Bytes()), yb)
+			if err != nil {
+				rt.Fatalf("%s: %v", info.Desc, err)
+			}
+			reuse("NewDecryptingReader")
+			out.Reset()
+			if _, err := out.ReadFrom(r); err != nil || !bytes.Equal(out.Bytes(), x2) {
+				knownOrFail(rt, "streaming-keyset-reader-retains-associated-data", fmt.Sprintf("%s: NewDecryptingReader was given the right associated data %x; the caller overwrote its slice before the first Read and the stream no longer decrypts (the reader kept the caller's slice): %v", info.Desc, y1, err))
+			}
+		case keys.Deriver:
+			d, fresh := tk.Must(keyderivation.New(h)), tk.Must(keyderivation.New(h2))
+			// (the two one-key handles may carry different random key IDs for keys without ID
+			// requirement: the derived KEYS are compared, not the keyset bytes)
+			sameKeys := func(a, b *keyset.Handle) bool {
+				if a.Len() != b.Len() {
+					return false
+				}
+				for i := 0; i < a.Len(); i++ {
+					ea, err1 := a.Entry(i)
+					eb, err2 := b.Entry(i)
+					if err1 != nil || err2 != nil || !ea.Key().Equal(eb.Key()) {
+						return false
+					}
+				}
+				return true
+			}
+			if _, err := d.DeriveKeyset(xb); err != nil {
+				rt.Fatalf("%s: DeriveKeyset: %v", info.Desc, err)
+			}
+			x2, _ := reuse("DeriveKeyset")
+			got, err := d.DeriveKeyset(xb)
+			want, err2 := fresh.DeriveKeyset(x2)
+			if err != nil || err2 != nil || !sameKeys(got, want) {
+				stale("DeriveKeyset", err)
+			}
+		}
+		p.verify("second calls")
 		finish(p, fmt.Sprintf("alltypes/%s/%s", c, info.Type), evid.NewH().S(info.Desc).B(x).B(y).Sum(), map[string]any{"key": info.Desc, "x_len": len(x), "y_len": len(y)})
 	})
 }
